@@ -3,8 +3,13 @@ import exec_common
 PID = "C06"
 
 
+def pre(chk):
+    exec_common.sched_stop_model(chk)
+    exec_common.blocked_count_model(chk)
+
+
 def run(tier, seed):
-    return exec_common.run_exec(PID, tier, seed, 3, scns=("exec", "migrate", "xjoin", "stacked"), pre=exec_common.sched_stop_model)
+    return exec_common.run_exec(PID, tier, seed, 3, scns=("exec", "migrate", "xjoin", "stacked"), pre=pre)
 
 
 def replay(path):
